@@ -10,7 +10,8 @@
     cells : [[tag, [[key, item], …]], …]   (address = position);  item : 0 (atom) | {"r": address}
 -/
 import Lean.Data.Json
-import TypedpyModel.Props.C19
+import TypedpyModel.Spec.AliasScope
+import TypedpyModel.Generated.Aliasing
 namespace Typedpy.Drive.Alias
 open Lean (Json)
 open Typedpy.Alias
